@@ -105,6 +105,9 @@ def check_spec(spec, labels, order='canonical'):
     H = spec.get('horizon', 3)
     case = {'spec': spec, 'labels': labels, 'order': order}
     r = topo.run(spec, order=reverse_order(spec) if order == 'reverse' else None)
+    msg = topo.probe_regression(spec, r, reverse_order(spec) if order == 'reverse' else None)
+    if msg:
+        return 'probe-breaks-model', 0, [core.violation('read-only-lookup-changes-outcome', msg, case)], 0
     if r.stage == 'build' or (r.error is not None and type(r.error).__name__ != 'ConvergenceError'):
         return 'error:%s:%s' % (r.stage, type(r.error).__name__), 0, [], 0
     em = exact.ExactModel(r.text)
